@@ -300,12 +300,13 @@ def split_tuple_assignments(fn) -> int:
             out = []
             for st in blk:
                 if isinstance(st, ast.Assign) and len(st.targets) == 1 and isinstance(st.targets[0], (ast.Tuple, ast.List)) and isinstance(st.value, (ast.Tuple, ast.List)) \
-                        and len(st.targets[0].elts) == len(st.value.elts) and all(isinstance(t, ast.Name) for t in st.targets[0].elts) \
-                        and not any(isinstance(v, ast.Starred) for v in st.value.elts):
-                    tnames = [t.id for t in st.targets[0].elts]
+                        and len(st.targets[0].elts) == len(st.value.elts) and all(isinstance(t, ast.Name) or (isinstance(t, ast.Attribute) and dotted(t)) for t in st.targets[0].elts) \
+                        and not any(isinstance(v, ast.Starred) for v in st.value.elts) \
+                        and (all(isinstance(t, ast.Name) for t in st.targets[0].elts) or all(isinstance(v, (ast.Name, ast.Constant)) for v in st.value.elts)):
+                    tnames = [t.id if isinstance(t, ast.Name) else dotted(t) for t in st.targets[0].elts]
                     ok = True
                     for j, v in enumerate(st.value.elts):
-                        used = {x.id for x in ast.walk(v) if isinstance(x, ast.Name)}
+                        used = {x.id for x in ast.walk(v) if isinstance(x, ast.Name)} | {dotted(x) for x in ast.walk(v) if isinstance(x, ast.Attribute) and dotted(x)}
                         if used & set(tnames[:j]):
                             ok = False
                     if ok and len(set(tnames)) == len(tnames):
@@ -475,6 +476,78 @@ def canonical_spellings(prog) -> None:
             m.tree = _Spellings().visit(m.tree)
 
 
+def sink_attribute_targets(fn) -> int:
+    """L = <expr>; <in-place building of L>; A.b = L    (L used nowhere else, A.b untouched in between)   ->   A.b = <expr>; <building of A.b>
+    Building an object in a local and publishing it in an attribute at the end is the same as building it in the attribute when nothing
+    can observe the attribute in between."""
+    done = 0
+    for node in ast.walk(fn):
+        for attr in ("body", "orelse", "finalbody"):
+            blk = getattr(node, attr, None)
+            if not isinstance(blk, list):
+                continue
+            j = 0
+            while j < len(blk):
+                pub = blk[j]
+                j += 1
+                if not (isinstance(pub, ast.Assign) and len(pub.targets) == 1 and isinstance(pub.targets[0], ast.Attribute) and dotted(pub.targets[0]) and isinstance(pub.value, ast.Name)):
+                    continue
+                L, A = pub.value.id, dotted(pub.targets[0])
+                idx = blk.index(pub)
+                defs = [k for k in range(idx) if isinstance(blk[k], ast.Assign) and len(blk[k].targets) == 1 and isinstance(blk[k].targets[0], ast.Name) and blk[k].targets[0].id == L]
+                if len(defs) != 1:
+                    continue
+                d = defs[0]
+                all_stores = [x for x in ast.walk(fn) if isinstance(x, ast.Name) and x.id == L and isinstance(x.ctx, (ast.Store, ast.Del))]
+                if len(all_stores) != 1:
+                    continue
+                inside = {id(x) for k in range(d, idx + 1) for x in ast.walk(blk[k])}
+                if any(isinstance(x, ast.Name) and x.id == L and id(x) not in inside for x in ast.walk(fn)):
+                    continue
+                between = blk[d: idx]
+                root = A.split(".")[0]
+                touched = False
+                for b in between:
+                    for x in ast.walk(b):
+                        if isinstance(x, ast.Attribute) and dotted(x) and (dotted(x) == A or dotted(x).startswith(A + ".")):
+                            touched = True
+                        if isinstance(x, ast.Call) and isinstance(x.func, ast.Attribute) and isinstance(x.func.value, ast.Name) and x.func.value.id == root:
+                            touched = True  # a method of the same object may look at the attribute
+                # only straight-line building code in between: nothing that can leave early on purpose (validate-then-publish must stay as it is)
+                for b in between[1:]:
+                    if not isinstance(b, (ast.Assign, ast.AugAssign, ast.AnnAssign, ast.Expr)) or any(isinstance(x, (ast.Raise, ast.Return, ast.Yield, ast.YieldFrom, ast.Await)) for x in ast.walk(b)):
+                        touched = True
+                if touched:
+                    continue
+
+                class T(ast.NodeTransformer):
+                    def visit_Name(self, n):
+                        if n.id == L:
+                            new = copy_ast(pub.targets[0])
+                            new.ctx = ast.Store() if isinstance(n.ctx, ast.Store) else ast.Load()
+                            for x in ast.walk(new):
+                                ast.copy_location(x, n)
+                                if hasattr(n, "_module"):
+                                    x._module = n._module
+                            # inner nodes of the path are loads
+                            for x in ast.walk(new):
+                                if x is not new and hasattr(x, "ctx"):
+                                    x.ctx = ast.Load()
+                            return new
+                        return n
+
+                for k in range(d, idx):
+                    blk[k] = T().visit(blk[k])
+                del blk[idx]
+                j = 0
+                done += 1
+    if done:
+        for node in ast.walk(fn):
+            for child in ast.iter_child_nodes(node):
+                child._parent = node
+    return done
+
+
 def fuse_comprehension_loops(fn) -> int:
     """L = [e for t in IT if c]; for x in L: BODY     (L used nowhere else)     ->     for t in IT: if c: x = e; BODY
     A filter written as a comprehension feeding a loop is the same iteration as a guarded loop."""
@@ -539,6 +612,8 @@ def run(prog) -> int:
             if isinstance(node, (ast.FunctionDef, ast.AsyncFunctionDef)):
                 split_tuple_assignments(node)
                 total += substitute_function(node)
+                if sink_attribute_targets(node):
+                    total += substitute_function(node)
                 if fuse_comprehension_loops(node):
                     total += substitute_function(node)
         relink(m)
